@@ -3,8 +3,30 @@ import os
 from vlib import Case, Stream, BUILD, model_cmd
 
 ID = "C11"
-LEAN_MODULES = ["HgVerif.Props.C11", "HgVerif.Props.C11Inc", "HgVerif.Model.Slots"]
+LEAN_MODULES = ["HgVerif.Props.C11", "HgVerif.Props.C11Inc", "HgVerif.Props.C11Keyed", "HgVerif.Model.Slots"]
 THEOREMS = [
+    # keyed publication of a set-valued result (Props/C11Keyed.lean)
+    "HgVerif.ReduceKeyed.pub_step",
+    "HgVerif.ReduceKeyed.pinv_reachable",
+    "HgVerif.ReduceKeyed.published_eq_root",
+    "HgVerif.ReduceKeyed.delta_exact",
+    "HgVerif.ReduceKeyed.no_rereport",
+    "HgVerif.ReduceKeyed.nothing_lost",
+    "HgVerif.ReduceKeyed.delta_coherent",
+    "HgVerif.ReduceKeyed.no_tick_without_change",
+    "HgVerif.ReduceKeyed.active_stays",
+    "HgVerif.ReduceKeyed.e1_creates_snapshot",
+    "HgVerif.ReduceKeyed.e1_delta",
+    "HgVerif.ReduceKeyed.root_set_eq_union",
+    "HgVerif.ReduceKeyed.root_set_history_free",
+    "HgVerif.ReduceKeyed.unionL_assoc",
+    "HgVerif.ReduceKeyed.root_view_eq_rootVal",
+    "HgVerif.ReduceKeyed.combView_coh",
+    "HgVerif.ReduceKeyed.inputView_coh",
+    "HgVerif.ReduceKeyed.cycleK_is_pubStep",
+    "HgVerif.ReduceKeyed.keyed_end_to_end_partial",
+    "HgVerif.ReduceKeyed.Witness.witness_first_reshape",
+    "HgVerif.ReduceKeyed.Witness.witness_direct_ticks_on_reshape",
     # incremental part (Props/C11Inc.lean): cached combiner outputs, evaluation candidates
     "HgVerif.ReduceInc.cacheInv_init",
     "HgVerif.ReduceInc.cacheInv_step",
@@ -59,12 +81,29 @@ RULE = ("key/element histories replayed into a REAL graph replay -> reduce(comb[
         "node lhs+rhs+100 that LOGS every evaluation (operand pair): besides the result, the per-cycle multiset of "
         "combiner evaluations of the real node is compared with the model's evaluation pass; no zero / live time-series "
         "zero / scalar zero. A case is non-trivial when it reaches >= 3 live elements and contains a removal or an "
-        "update of a live element (TSL: >= 3 valid elements and a re-tick); distinct by sha1 of the case body")
-TRUSTED = ["TSD/TSL slot stores, replay/record nodes and forwarding outputs are taken as given (C04/C05/C13/C20); the model "
+        "update of a live element (TSL: >= 3 valid elements and a re-tick); distinct by sha1 of the case body. "
+        "KEYED RESULTS: the same three collection shapes over TSS<int> elements (kinds tsd:s / dtsl:s / tsl<N>:s) reduced "
+        "with set union (operator bit_or and a sub-graph lhs | rhs), no zero / live set-valued zero / set constant; the "
+        "line shows the recorded DELTA and the full value; histories with element-level set changes, several per cycle, "
+        "shrink to one / none and regrow, growth over 1->2->4->8(->16), re-shapes that leave the value alone; 150 cases "
+        "run 2-3 reductions of differing result kinds (scalar / set) one after the other in ONE process in both orders; "
+        "a keyed case is non-trivial with >= 3 live elements and an element-level change or a root-identity change")
+TRUSTED = ["keyed publication: the TSS output's per-cycle delta bookkeeping (insert_key / remove_key / touch) and what a set "
+           "input reports at a sampled re-point (the difference to the value it held) are modelled from the code and "
+           "tied by the correspondence runs, not proved about the C++; the union operator's output is taken to carry "
+           "the exact difference to its own previous value (union_tss_binary)",
+           "TSD/TSL slot stores, replay/record nodes and forwarding outputs are taken as given (C04/C05/C13/C20); the model "
            "driver replays the TSD delta into the C05 slot-store model (Model/Slots.lean) because the reduce node visits "
            "removed / added / modified keys in slot order",
            "dense leaf order inside one cycle is the TSD delta-chain (slot) order; the result theorems hold for every order"]
-ASSUMPTIONS = ["the combiner is associative (and commutative for order independence); a non-associative combiner is "
+ASSUMPTIONS = ["keyed results: StepOK (Lemmas/ReduceKeyed) - while an output stays the root of the tree its set evolves by exactly "
+               "the delta it reports, a node that is not evaluated has an unmodified root, rebuild implies evaluation; "
+               "the snapshot-creating cycle in which the OLD root itself changed (E1, tag [C11-keyed-first-reshape]) is "
+               "excluded from the exact-delta theorems and described by e1_delta instead (the unchanged code re-reports "
+               "the whole value and loses removals there); for a set-valued result 'no value' and 'the empty set' are "
+               "not distinguished by the monitor (the code publishes either for an empty union, tags "
+               "keyed:empty-collection-no-zero->..., [C11-keyed-empty-invalid])",
+               "the combiner is associative (and commutative for order independence); a non-associative combiner is "
                "outside the property (is_associative=false selects a different node)",
                "the collection and zero sources do not re-point (no switch_/REF upstream of reduce in the harness graph)",
                "a live time-series zero has ticked before it is needed (the generator ticks it in cycle 0); the cache "
@@ -106,6 +145,23 @@ LEVEL_TEXT = ("Kernel-checked for an arbitrary carrier and an arbitrary associat
               "not recorded) and s10/s21 (tick paths skipped after a rebuild) break CacheInv and publish 382 for 254 / "
               "261 for 1229. The model is tied to the code by running the real node on generated histories and "
               "comparing results AND the multiset of combiner evaluations (operand pairs) of every cycle.")
+LEVEL_TEXT += (" KEYED PUBLICATION (Props/C11Keyed.lean; reduce_publication_ops_for / begin_keyed_reduce_publication / "
+               "finish_reduce_publication / reconcile_set_impl and the TSS delta bookkeeping, as coded): over ALL histories of "
+               "cycles with arbitrary sequences of root identities, bank changes and re-shapes (induction over ReachP, invariant "
+               "PInv) the set a consumer of the result holds is exactly the set at the root of the combiner tree "
+               "(published_eq_root) and the delta of every cycle is the exact difference between the set held before and "
+               "the set held now (delta_exact, no_rereport, nothing_lost, delta_coherent) - except in the one cycle that "
+               "creates the snapshot while the old root itself changed (E1; at most once per node: active_stays, "
+               "e1_creates_snapshot), where the code reports the whole new set as added and nothing as removed (e1_delta, "
+               "for all inputs; witness_first_reshape is the concrete history the real node reproduces); with the snapshot in "
+               "place a cycle that leaves the set unchanged does not tick unless the tree moved to the other bank "
+               "(no_tick_without_change); the root set is the union over exactly the live valid elements in every "
+               "reachable state of the tree, independent of history order and shape (root_set_eq_union, "
+               "root_set_history_free: Props/C11Inc instantiated with set union, associative on the nose); a combiner's / a "
+               "replayed element's view is coherent by construction (combView_coh, inputView_coh); cycleK, the function "
+               "the driver runs, is cycleG + pubStep (cycleK_is_pubStep) and publishes that union (keyed_end_to_end_partial). "
+               "COUNTER-LEMMA (kernel-evaluated witness): the direct strategy on a set-valued result ticks on a re-shape "
+               "that changes nothing and loses the value on an emptied collection (witness_direct_ticks_on_reshape).")
 LEVEL_NOTE = ("Both evaluation paths are proved: the lifted-kernel path (cycleL: an evaluated combiner reads the CURRENT "
               "resolution of its children) by CacheInv, and the generic child-graph path (cycleG: inputs linked at the last "
               "re-bind of the position, tick notifications through the standing links, sampled re-bind only where the "
@@ -114,7 +170,10 @@ LEVEL_NOTE = ("Both evaluation paths are proved: the lifted-kernel path (cycleL:
               "resolve to now' + 'no schedule is pending'; hence the link re-binding of generic combiner graphs and which "
               "cached outputs are refreshed are no longer merely observed. The generic model is additionally tied to the "
               "real node by the per-cycle multiset of combiner evaluations (operand pairs) of the logging node combiner. "
-              "Partial / outside the model: the keyed publication snapshot (TSD/TSS-valued results), re-pointing "
+              "Keyed publication: proved for set-valued (TSS) results; PARTIAL: keyed_end_to_end_partial assumes StepOK for the "
+              "views cycleK builds and that the root identity does not move without rebuild_structure (full statement: "
+              "KeyedEndToEnd); dictionary-valued (TSD) results are reachable in the harness (kinds tsd:d / dtsl:d) but not "
+              "modelled or generated. Partial / outside the model: re-pointing "
               "collection / zero sources, pause/resume and self-scheduling combiners (has_future_combiner_schedule), the "
               "validity fine print of the sampled re-bind notification; the singleton root while a supplied zero has "
               "never ticked (excluded point, tagged [C11-zero-unset] by the monitor when presented); memory safety "
